@@ -1628,3 +1628,75 @@ def tidy_inlined_temps(trees):
                     n += 1
         ast.fix_missing_locations(tree)
     return n
+
+
+
+def thread_optional_locals(trees):
+    """`x = None; if c: x = E else: x = None; if x is not None: A(x) else: B`  (what inlining a "the thing, or None" helper leaves)
+        ->  `if c and E is not None: A(E) else: B`
+    when E is a pure read (names, attributes, constant subscripts), x is a plain local used nowhere else, and c is pure.
+    Only the single-arm form is rewritten; anything else is left alone."""
+    n = 0
+
+    def pure_read(e):
+        for x in ast.walk(e):
+            if not isinstance(x, (ast.Name, ast.Attribute, ast.Subscript, ast.Constant, ast.Load, ast.Compare, ast.BoolOp, ast.And, ast.Or, ast.UnaryOp, ast.Not,
+                                  ast.Eq, ast.NotEq, ast.Lt, ast.LtE, ast.Gt, ast.GtE, ast.Is, ast.IsNot, ast.In, ast.NotIn)):
+                return False
+        return True
+
+    def is_none(e):
+        return isinstance(e, ast.Constant) and e.value is None
+
+    def rewrite(stmts, fn):
+        nonlocal n
+        i = 0
+        while i + 1 < len(stmts):
+            a, b = stmts[i], stmts[i + 1]
+            if isinstance(a, ast.If) and isinstance(b, ast.If) and len(a.body) == 1 and len(a.orelse) <= 1 and isinstance(a.body[0], ast.Assign) \
+                    and len(a.body[0].targets) == 1 and isinstance(a.body[0].targets[0], ast.Name) and not is_none(a.body[0].value):
+                x = a.body[0].targets[0].id
+                e = a.body[0].value
+                else_none = (len(a.orelse) == 1 and isinstance(a.orelse[0], ast.Assign) and len(a.orelse[0].targets) == 1 and dotted_name(a.orelse[0].targets[0]) == x
+                             and is_none(a.orelse[0].value))
+                pre_none = i > 0 and isinstance(stmts[i - 1], ast.Assign) and len(stmts[i - 1].targets) == 1 and dotted_name(stmts[i - 1].targets[0]) == x and is_none(stmts[i - 1].value)
+                t = b.test
+                pos = isinstance(t, ast.Compare) and len(t.ops) == 1 and isinstance(t.ops[0], ast.IsNot) and dotted_name(t.left) == x and is_none(t.comparators[0])
+                neg = isinstance(t, ast.Compare) and len(t.ops) == 1 and isinstance(t.ops[0], ast.Is) and dotted_name(t.left) == x and is_none(t.comparators[0])
+                if (else_none or (pre_none and not a.orelse)) and (pos or neg) and pure_read(e) and pure_read(a.test):
+                    inside = set(id(y) for part in (a, b) for y in ast.walk(part))
+                    if pre_none:
+                        inside |= set(id(y) for y in ast.walk(stmts[i - 1]))
+                    outside_use = any(isinstance(y, ast.Name) and y.id == x and id(y) not in inside for y in ast.walk(fn))
+                    none_side = b.orelse if pos else b.body
+                    some_side = b.body if pos else b.orelse
+                    stored_inside = any(isinstance(y, ast.Name) and y.id == x and isinstance(y.ctx, ast.Store) for part in b.body + b.orelse for y in ast.walk(part))
+                    used_on_none = any(isinstance(y, ast.Name) and y.id == x for part in none_side for y in ast.walk(part))
+                    if not outside_use and not stored_inside and not used_on_none:
+                        cond = ast.BoolOp(op=ast.And(), values=[a.test, ast.Compare(left=copy.deepcopy(e), ops=[ast.IsNot()], comparators=[ast.Constant(value=None)])])
+                        new_some = [_subst_names(st_, {x: e}) for st_ in some_side] or [ast.Pass()]
+                        new_if = ast.copy_location(ast.If(test=cond, body=new_some, orelse=list(none_side)), b)
+                        ast.fix_missing_locations(new_if)
+                        lo = i - 1 if pre_none else i
+                        stmts[lo:i + 2] = [new_if]
+                        n += 1
+                        i = lo
+                        continue
+            i += 1
+        for st in stmts:
+            if isinstance(st, (ast.FunctionDef, ast.AsyncFunctionDef, ast.ClassDef)):
+                continue
+            for fld in ('body', 'orelse', 'finalbody'):
+                sub = getattr(st, fld, None)
+                if isinstance(sub, list) and sub and isinstance(sub[0], ast.stmt):
+                    rewrite(sub, fn)
+            for h in getattr(st, 'handlers', []) or []:
+                rewrite(h.body, fn)
+
+    def dotted_name(t):
+        return t.id if isinstance(t, ast.Name) else None
+    for tree in trees.values():
+        for fn in [x for x in ast.walk(tree) if isinstance(x, (ast.FunctionDef, ast.AsyncFunctionDef))]:
+            rewrite(fn.body, fn)
+        ast.fix_missing_locations(tree)
+    return n
